@@ -49,6 +49,9 @@ def _matches_directory_pattern(path: str, pattern: str) -> bool:
     path_parts = Path(path).parts
     if dir_pattern in path_parts:
         return True
+    # "**/name/" means a directory of that name at any depth, the top level included
+    if dir_pattern.startswith("**/") and dir_pattern[3:] in path_parts[:-1]:
+        return True
     # Only paths below the directory match ("build/" must not match "builder.py" or "buildx/a.py")
     return fnmatch.fnmatch(path, dir_pattern + "/*")
 
